@@ -204,12 +204,23 @@ class RemoveUnusedVariables(VisitorBasedCodemodCommand, NameResolutionMixin):
             #        return node.with_changes(elements = new_elements)
             #    return None
             case cst.Name():
-                if self.find_accesses(node):
+                if self.find_accesses(node) or self._is_referenced(node):
                     return node
                 else:
                     return None
             case _:
                 return node
+
+    def _is_referenced(self, name: cst.Name) -> bool:
+        """
+        Is the variable read from anywhere, the scopes nested in its own (closures, lambdas, comprehensions) and,
+        for a name declared `global` or `nonlocal`, the other functions that use it included?
+        """
+        if scope := self.get_metadata(ScopeProvider, name, None):
+            return any(
+                assignment.references for assignment in scope[name.value]
+            )
+        return True
 
     def leave_Assign(
         self, original_node: cst.Assign, updated_node: cst.Assign
